@@ -66,6 +66,10 @@ def stepC24 : List String → String
       match ps.mapM prod? with
       | some l => " ".intercalate ((sortProducers l).map (fun (p : Producer × List Nat) => hexOf p.1.key))
       | none => "bad-op"
+  | ["crmembers", _reps, dids] =>
+      match (dids.splitOn ",").mapM bytesOf? with
+      | some l => ",".intercalate ((l.toArray.qsort (fun a b => didLt a b)).toList.map hexOf)
+      | none => "bad-op"
   | "snap" :: _ => "isolated"   -- a snapshot is a value: later changes of the live state cannot reach it
   | ["ckorder", _reps, pairs] =>
       match (pairs.splitOn ",").mapM (fun t => match t.splitOn ":" with
